@@ -18,7 +18,9 @@ RULE = ("case = one write history on Block1014 + one finalisation. Directed swee
         "bytes already written, reached by three chunkings ([r]; [1012, r]; [r/2, r-r/2, 2024] which leaves the "
         "trailer pending when r = 0), crossed with the next write length (quick: ~330 boundary lengths per residue; "
         "thorough: every length 0..3036), finalised via finalise/seek/close in rotation; seeded: 1..30 writes with "
-        "boundary-biased lengths incl. 0-length and multi-block writes. Position-coded content. distinct = distinct "
+        "boundary-biased lengths incl. 0-length and multi-block writes; bulk writes: every length 7900..13200 (quick: every "
+        "second) in one call from eight starting situations (fresh, trailer written, trailer pending, mid-block), with and "
+        "without a following write. Position-coded content. distinct = distinct "
         "(finalise-via, ((residue, length), ...)) histories (sweep tuples are distinct by construction); non-trivial = some write "
         "crosses or lands on a block boundary, is empty, or starts with the trailer pending")
 COMPONENTS = {
@@ -150,6 +152,11 @@ def plan(tier, seed, wave):
         step = 8 if tier == "thorough" else 23
         for lo in range(0, 1012, step):
             tasks.append({"fam": "sweep", "lo": lo, "hi": min(1012, lo + step), "tier": tier})
+    if wave == 0:
+        # bulk writes (8..13 blocks in one call) from the characteristic starting situations
+        step = 250 if tier == "quick" else 60
+        for lo in range(7900, 13200, step):
+            tasks.append({"fam": "bulk", "lo": lo, "hi": min(13200, lo + step), "tier": tier})
     if tier == "quick":
         if wave > 0:
             return []
@@ -203,6 +210,25 @@ def run_task(task):
         if task["lo"] == 0:
             part["samples"].append({"kind": "blocker_history", "writes": [506, 506, 2024, 1011], "finalise": "seek",
                                     "note": "one of the sweep histories: residue 1012->0 with trailer pending, then 1011"})
+    elif task["fam"] == "bulk":
+        pres = ([], [1012], [2024], [506, 506, 2024], [1], [500], [1011], [1012, 1011])
+        for n in range(task["lo"], task["hi"]):
+            for pi, pre in enumerate(pres):
+                if task["tier"] == "quick" and (n + pi) % 2:
+                    continue
+                fin = FINS[(n + pi) % 3]
+                for tail in ([], [7]):
+                    writes = pre + [n] + tail
+                    fails, image, f = judge_history(writes, fin, probes=c)
+                    part["evals"] += 1
+                    part["events"] += f.n_ops
+                    part["nontrivial"] += 1
+                    c["probe:bulk_write_of_8_to_13_blocks"] += 1
+                    for fl in fails:
+                        if len(part["fails"]) < 6:
+                            fl["scenario"] = {"kind": "blocker_history", "writes": writes, "finalise": fin}
+                            part["fails"].append(fl)
+        part["runs"] += 1
     else:
         for i in range(task["start"], task["start"] + task["n"]):
             scn = gen_seeded(sub_seed(task["seed"], ID, i))
